@@ -9,8 +9,19 @@
  * set) is plain GCC vector C that CBMC interprets itself.
  * models/x86_selftest.c cross-checks every model against the real instruction on the build CPU
  * (supports the assumption; decides no property).
+ *
+ * The models are written WITHOUT loops (macros expanded per lane): the intrinsic headers call the builtins
+ * through implicit built-in declarations, DFCC (cbmc 6.11) does not pass its write-set argument at such call
+ * sites, and a loop counter inside the callee then fails a spurious "is assignable" check.
  */
 #include <stdint.h>
+/* model text (trusted): no safety obligations are generated for it */
+#pragma CPROVER check push
+#pragma CPROVER check disable "bounds"
+#pragma CPROVER check disable "pointer"
+#pragma CPROVER check disable "pointer-overflow"
+#pragma CPROVER check disable "conversion"
+#pragma CPROVER check disable "div-by-zero"
 
 typedef int x86_v4si __attribute__((vector_size(16)));
 typedef float x86_v4sf __attribute__((vector_size(16)));
@@ -36,8 +47,10 @@ __builtin_ia32_pshufd(x86_v4si a, int imm)
 	x86_V x, r;
 
 	x.v = a;
-	for (int i = 0; i < 4; i++)
-		r.u32[i] = x.u32[(imm >> (2 * i)) & 3];
+	r.u32[0] = x.u32[(imm >> (2 * 0)) & 3];
+	r.u32[1] = x.u32[(imm >> (2 * 1)) & 3];
+	r.u32[2] = x.u32[(imm >> (2 * 2)) & 3];
+	r.u32[3] = x.u32[(imm >> (2 * 3)) & 3];
 	return (r.v);
 }
 
@@ -49,8 +62,10 @@ __builtin_ia32_pshuflw(x86_v8hi a, int imm)
 
 	x.h = a;
 	r = x;
-	for (int i = 0; i < 4; i++)
-		r.u16[i] = x.u16[(imm >> (2 * i)) & 3];
+	r.u16[0] = x.u16[(imm >> (2 * 0)) & 3];
+	r.u16[1] = x.u16[(imm >> (2 * 1)) & 3];
+	r.u16[2] = x.u16[(imm >> (2 * 2)) & 3];
+	r.u16[3] = x.u16[(imm >> (2 * 3)) & 3];
 	return (r.h);
 }
 
@@ -62,8 +77,10 @@ __builtin_ia32_pshufhw(x86_v8hi a, int imm)
 
 	x.h = a;
 	r = x;
-	for (int i = 0; i < 4; i++)
-		r.u16[4 + i] = x.u16[4 + ((imm >> (2 * i)) & 3)];
+	r.u16[4 + 0] = x.u16[4 + ((imm >> (2 * 0)) & 3)];
+	r.u16[4 + 1] = x.u16[4 + ((imm >> (2 * 1)) & 3)];
+	r.u16[4 + 2] = x.u16[4 + ((imm >> (2 * 2)) & 3)];
+	r.u16[4 + 3] = x.u16[4 + ((imm >> (2 * 3)) & 3)];
 	return (r.h);
 }
 
@@ -74,8 +91,14 @@ __builtin_ia32_psllwi128(x86_v8hi a, int c)
 	x86_V x;
 
 	x.h = a;
-	for (int i = 0; i < 8; i++)
-		x.u16[i] = ((unsigned)c > 15) ? 0 : (uint16_t)(((uint32_t)x.u16[i] << c) & 0xffff);
+	x.u16[0] = ((unsigned)c > 15) ? 0 : (uint16_t)(((uint32_t)x.u16[0] << (c & 15)) & 0xffff);
+	x.u16[1] = ((unsigned)c > 15) ? 0 : (uint16_t)(((uint32_t)x.u16[1] << (c & 15)) & 0xffff);
+	x.u16[2] = ((unsigned)c > 15) ? 0 : (uint16_t)(((uint32_t)x.u16[2] << (c & 15)) & 0xffff);
+	x.u16[3] = ((unsigned)c > 15) ? 0 : (uint16_t)(((uint32_t)x.u16[3] << (c & 15)) & 0xffff);
+	x.u16[4] = ((unsigned)c > 15) ? 0 : (uint16_t)(((uint32_t)x.u16[4] << (c & 15)) & 0xffff);
+	x.u16[5] = ((unsigned)c > 15) ? 0 : (uint16_t)(((uint32_t)x.u16[5] << (c & 15)) & 0xffff);
+	x.u16[6] = ((unsigned)c > 15) ? 0 : (uint16_t)(((uint32_t)x.u16[6] << (c & 15)) & 0xffff);
+	x.u16[7] = ((unsigned)c > 15) ? 0 : (uint16_t)(((uint32_t)x.u16[7] << (c & 15)) & 0xffff);
 	return (x.h);
 }
 
@@ -85,8 +108,14 @@ __builtin_ia32_psrlwi128(x86_v8hi a, int c)
 	x86_V x;
 
 	x.h = a;
-	for (int i = 0; i < 8; i++)
-		x.u16[i] = ((unsigned)c > 15) ? 0 : (uint16_t)(x.u16[i] >> c);
+	x.u16[0] = ((unsigned)c > 15) ? 0 : (uint16_t)(x.u16[0] >> (c & 15));
+	x.u16[1] = ((unsigned)c > 15) ? 0 : (uint16_t)(x.u16[1] >> (c & 15));
+	x.u16[2] = ((unsigned)c > 15) ? 0 : (uint16_t)(x.u16[2] >> (c & 15));
+	x.u16[3] = ((unsigned)c > 15) ? 0 : (uint16_t)(x.u16[3] >> (c & 15));
+	x.u16[4] = ((unsigned)c > 15) ? 0 : (uint16_t)(x.u16[4] >> (c & 15));
+	x.u16[5] = ((unsigned)c > 15) ? 0 : (uint16_t)(x.u16[5] >> (c & 15));
+	x.u16[6] = ((unsigned)c > 15) ? 0 : (uint16_t)(x.u16[6] >> (c & 15));
+	x.u16[7] = ((unsigned)c > 15) ? 0 : (uint16_t)(x.u16[7] >> (c & 15));
 	return (x.h);
 }
 
@@ -97,8 +126,10 @@ __builtin_ia32_pslldi128(x86_v4si a, int c)
 	x86_V x;
 
 	x.v = a;
-	for (int i = 0; i < 4; i++)
-		x.u32[i] = ((unsigned)c > 31) ? 0 : (x.u32[i] << c);
+	x.u32[0] = ((unsigned)c > 31) ? 0 : (x.u32[0] << (c & 31));
+	x.u32[1] = ((unsigned)c > 31) ? 0 : (x.u32[1] << (c & 31));
+	x.u32[2] = ((unsigned)c > 31) ? 0 : (x.u32[2] << (c & 31));
+	x.u32[3] = ((unsigned)c > 31) ? 0 : (x.u32[3] << (c & 31));
 	return (x.v);
 }
 
@@ -108,8 +139,10 @@ __builtin_ia32_psrldi128(x86_v4si a, int c)
 	x86_V x;
 
 	x.v = a;
-	for (int i = 0; i < 4; i++)
-		x.u32[i] = ((unsigned)c > 31) ? 0 : (x.u32[i] >> c);
+	x.u32[0] = ((unsigned)c > 31) ? 0 : (x.u32[0] >> (c & 31));
+	x.u32[1] = ((unsigned)c > 31) ? 0 : (x.u32[1] >> (c & 31));
+	x.u32[2] = ((unsigned)c > 31) ? 0 : (x.u32[2] >> (c & 31));
+	x.u32[3] = ((unsigned)c > 31) ? 0 : (x.u32[3] >> (c & 31));
 	return (x.v);
 }
 
@@ -120,8 +153,8 @@ __builtin_ia32_psllqi128(x86_v2di a, int c)
 	x86_V x;
 
 	x.d = a;
-	for (int i = 0; i < 2; i++)
-		x.u64[i] = ((unsigned)c > 63) ? 0 : (x.u64[i] << c);
+	x.u64[0] = ((unsigned)c > 63) ? 0 : (x.u64[0] << (c & 63));
+	x.u64[1] = ((unsigned)c > 63) ? 0 : (x.u64[1] << (c & 63));
 	return (x.d);
 }
 
@@ -131,8 +164,8 @@ __builtin_ia32_psrlqi128(x86_v2di a, int c)
 	x86_V x;
 
 	x.d = a;
-	for (int i = 0; i < 2; i++)
-		x.u64[i] = ((unsigned)c > 63) ? 0 : (x.u64[i] >> c);
+	x.u64[0] = ((unsigned)c > 63) ? 0 : (x.u64[0] >> (c & 63));
+	x.u64[1] = ((unsigned)c > 63) ? 0 : (x.u64[1] >> (c & 63));
 	return (x.d);
 }
 
@@ -144,8 +177,22 @@ __builtin_ia32_pslldqi128(x86_v2di a, int bits)
 	int n = bits / 8;
 
 	x.d = a;
-	for (int i = 0; i < 16; i++)
-		r.u8[i] = (n >= 0 && n <= 15 && i - n >= 0) ? x.u8[i - n] : 0;
+	r.u8[0] = (n >= 0 && n <= 15 && 0 - n >= 0) ? x.u8[(0 - n) & 15] : 0;
+	r.u8[1] = (n >= 0 && n <= 15 && 1 - n >= 0) ? x.u8[(1 - n) & 15] : 0;
+	r.u8[2] = (n >= 0 && n <= 15 && 2 - n >= 0) ? x.u8[(2 - n) & 15] : 0;
+	r.u8[3] = (n >= 0 && n <= 15 && 3 - n >= 0) ? x.u8[(3 - n) & 15] : 0;
+	r.u8[4] = (n >= 0 && n <= 15 && 4 - n >= 0) ? x.u8[(4 - n) & 15] : 0;
+	r.u8[5] = (n >= 0 && n <= 15 && 5 - n >= 0) ? x.u8[(5 - n) & 15] : 0;
+	r.u8[6] = (n >= 0 && n <= 15 && 6 - n >= 0) ? x.u8[(6 - n) & 15] : 0;
+	r.u8[7] = (n >= 0 && n <= 15 && 7 - n >= 0) ? x.u8[(7 - n) & 15] : 0;
+	r.u8[8] = (n >= 0 && n <= 15 && 8 - n >= 0) ? x.u8[(8 - n) & 15] : 0;
+	r.u8[9] = (n >= 0 && n <= 15 && 9 - n >= 0) ? x.u8[(9 - n) & 15] : 0;
+	r.u8[10] = (n >= 0 && n <= 15 && 10 - n >= 0) ? x.u8[(10 - n) & 15] : 0;
+	r.u8[11] = (n >= 0 && n <= 15 && 11 - n >= 0) ? x.u8[(11 - n) & 15] : 0;
+	r.u8[12] = (n >= 0 && n <= 15 && 12 - n >= 0) ? x.u8[(12 - n) & 15] : 0;
+	r.u8[13] = (n >= 0 && n <= 15 && 13 - n >= 0) ? x.u8[(13 - n) & 15] : 0;
+	r.u8[14] = (n >= 0 && n <= 15 && 14 - n >= 0) ? x.u8[(14 - n) & 15] : 0;
+	r.u8[15] = (n >= 0 && n <= 15 && 15 - n >= 0) ? x.u8[(15 - n) & 15] : 0;
 	return (r.d);
 }
 
@@ -156,8 +203,22 @@ __builtin_ia32_psrldqi128(x86_v2di a, int bits)
 	int n = bits / 8;
 
 	x.d = a;
-	for (int i = 0; i < 16; i++)
-		r.u8[i] = (n >= 0 && n <= 15 && i + n < 16) ? x.u8[i + n] : 0;
+	r.u8[0] = (n >= 0 && n <= 15 && 0 + n < 16) ? x.u8[(0 + n) & 15] : 0;
+	r.u8[1] = (n >= 0 && n <= 15 && 1 + n < 16) ? x.u8[(1 + n) & 15] : 0;
+	r.u8[2] = (n >= 0 && n <= 15 && 2 + n < 16) ? x.u8[(2 + n) & 15] : 0;
+	r.u8[3] = (n >= 0 && n <= 15 && 3 + n < 16) ? x.u8[(3 + n) & 15] : 0;
+	r.u8[4] = (n >= 0 && n <= 15 && 4 + n < 16) ? x.u8[(4 + n) & 15] : 0;
+	r.u8[5] = (n >= 0 && n <= 15 && 5 + n < 16) ? x.u8[(5 + n) & 15] : 0;
+	r.u8[6] = (n >= 0 && n <= 15 && 6 + n < 16) ? x.u8[(6 + n) & 15] : 0;
+	r.u8[7] = (n >= 0 && n <= 15 && 7 + n < 16) ? x.u8[(7 + n) & 15] : 0;
+	r.u8[8] = (n >= 0 && n <= 15 && 8 + n < 16) ? x.u8[(8 + n) & 15] : 0;
+	r.u8[9] = (n >= 0 && n <= 15 && 9 + n < 16) ? x.u8[(9 + n) & 15] : 0;
+	r.u8[10] = (n >= 0 && n <= 15 && 10 + n < 16) ? x.u8[(10 + n) & 15] : 0;
+	r.u8[11] = (n >= 0 && n <= 15 && 11 + n < 16) ? x.u8[(11 + n) & 15] : 0;
+	r.u8[12] = (n >= 0 && n <= 15 && 12 + n < 16) ? x.u8[(12 + n) & 15] : 0;
+	r.u8[13] = (n >= 0 && n <= 15 && 13 + n < 16) ? x.u8[(13 + n) & 15] : 0;
+	r.u8[14] = (n >= 0 && n <= 15 && 14 + n < 16) ? x.u8[(14 + n) & 15] : 0;
+	r.u8[15] = (n >= 0 && n <= 15 && 15 + n < 16) ? x.u8[(15 + n) & 15] : 0;
 	return (r.d);
 }
 
@@ -206,12 +267,27 @@ __builtin_ia32_pshufb128(x86_v16qi a, x86_v16qi m)
 
 	x.q = a;
 	y.q = m;
-	for (int i = 0; i < 16; i++)
-		r.u8[i] = (y.u8[i] & 0x80) ? 0 : x.u8[y.u8[i] & 15];
+	r.u8[0] = (y.u8[0] & 0x80) ? 0 : x.u8[y.u8[0] & 15];
+	r.u8[1] = (y.u8[1] & 0x80) ? 0 : x.u8[y.u8[1] & 15];
+	r.u8[2] = (y.u8[2] & 0x80) ? 0 : x.u8[y.u8[2] & 15];
+	r.u8[3] = (y.u8[3] & 0x80) ? 0 : x.u8[y.u8[3] & 15];
+	r.u8[4] = (y.u8[4] & 0x80) ? 0 : x.u8[y.u8[4] & 15];
+	r.u8[5] = (y.u8[5] & 0x80) ? 0 : x.u8[y.u8[5] & 15];
+	r.u8[6] = (y.u8[6] & 0x80) ? 0 : x.u8[y.u8[6] & 15];
+	r.u8[7] = (y.u8[7] & 0x80) ? 0 : x.u8[y.u8[7] & 15];
+	r.u8[8] = (y.u8[8] & 0x80) ? 0 : x.u8[y.u8[8] & 15];
+	r.u8[9] = (y.u8[9] & 0x80) ? 0 : x.u8[y.u8[9] & 15];
+	r.u8[10] = (y.u8[10] & 0x80) ? 0 : x.u8[y.u8[10] & 15];
+	r.u8[11] = (y.u8[11] & 0x80) ? 0 : x.u8[y.u8[11] & 15];
+	r.u8[12] = (y.u8[12] & 0x80) ? 0 : x.u8[y.u8[12] & 15];
+	r.u8[13] = (y.u8[13] & 0x80) ? 0 : x.u8[y.u8[13] & 15];
+	r.u8[14] = (y.u8[14] & 0x80) ? 0 : x.u8[y.u8[14] & 15];
+	r.u8[15] = (y.u8[15] & 0x80) ? 0 : x.u8[y.u8[15] & 15];
 	return (r.q);
 }
 
 /* PALIGNR (SSSE3): (dst:src) >> (imm8 * 8), low 128 bits (GCC passes the count in BITS) */
+#define X86_CAT(hi, lo, j) (((j) < 0 || (j) >= 32) ? 0 : ((j) < 16) ? (lo).u8[(j) & 15] : (hi).u8[((j) - 16) & 15])
 x86_v2di
 __builtin_ia32_palignr128(x86_v2di a, x86_v2di b, int bits)
 {
@@ -220,9 +296,22 @@ __builtin_ia32_palignr128(x86_v2di a, x86_v2di b, int bits)
 
 	hi.d = a;
 	lo.d = b;
-	for (int i = 0; i < 16; i++) {
-		int j = i + n;
-		r.u8[i] = (n < 0 || j >= 32) ? 0 : (j < 16) ? lo.u8[j] : hi.u8[j - 16];
-	}
+	r.u8[0] = (n < 0) ? 0 : X86_CAT(hi, lo, 0 + n);
+	r.u8[1] = (n < 0) ? 0 : X86_CAT(hi, lo, 1 + n);
+	r.u8[2] = (n < 0) ? 0 : X86_CAT(hi, lo, 2 + n);
+	r.u8[3] = (n < 0) ? 0 : X86_CAT(hi, lo, 3 + n);
+	r.u8[4] = (n < 0) ? 0 : X86_CAT(hi, lo, 4 + n);
+	r.u8[5] = (n < 0) ? 0 : X86_CAT(hi, lo, 5 + n);
+	r.u8[6] = (n < 0) ? 0 : X86_CAT(hi, lo, 6 + n);
+	r.u8[7] = (n < 0) ? 0 : X86_CAT(hi, lo, 7 + n);
+	r.u8[8] = (n < 0) ? 0 : X86_CAT(hi, lo, 8 + n);
+	r.u8[9] = (n < 0) ? 0 : X86_CAT(hi, lo, 9 + n);
+	r.u8[10] = (n < 0) ? 0 : X86_CAT(hi, lo, 10 + n);
+	r.u8[11] = (n < 0) ? 0 : X86_CAT(hi, lo, 11 + n);
+	r.u8[12] = (n < 0) ? 0 : X86_CAT(hi, lo, 12 + n);
+	r.u8[13] = (n < 0) ? 0 : X86_CAT(hi, lo, 13 + n);
+	r.u8[14] = (n < 0) ? 0 : X86_CAT(hi, lo, 14 + n);
+	r.u8[15] = (n < 0) ? 0 : X86_CAT(hi, lo, 15 + n);
 	return (r.d);
 }
+#pragma CPROVER check pop
